@@ -341,6 +341,14 @@ struct Exec {
     /// source: committed documents matched by that delete whose segment had
     /// delete_opstamp == opstamp at writer creation
     f8_lost_cands: BTreeSet<u64>,
+    /// committed documents matched by such a first delete whose segment HAS delete_opstamp ==
+    /// commit opstamp: `merge()` skips that source (advance_deletes returns early), so the
+    /// unchanged code does not publish the delete through ONE merge; only a chain of merges
+    /// (the merged segment, which has no delete_opstamp, merged again) does
+    f8_chain_cands: BTreeSet<u64>,
+    /// some committed segment had delete_opstamp != commit opstamp when the first delete was issued
+    f8_other_source: bool,
+    explicit_merges_since_first_del: u32,
     /// delete_opstamp of the segment of every published document at the last check point
     last_seg_delop: BTreeMap<u64, Option<u64>>,
     /// documents added by a producer thread and deleted later by the SAME thread inside one
@@ -424,6 +432,9 @@ impl Exec {
             dirty_delete_all: false,
             f8_cands: BTreeSet::new(),
             f8_lost_cands: BTreeSet::new(),
+            f8_chain_cands: BTreeSet::new(),
+            f8_other_source: false,
+            explicit_merges_since_first_del: 0,
             last_seg_delop: BTreeMap::new(),
             f10_cands: BTreeSet::new(),
             producer_race_seen: false,
@@ -511,6 +522,13 @@ impl Exec {
         self.fresh = false;
     }
 
+    /// more than one merge of committed segments can have run since the first delete of the
+    /// re-created writer: a merge policy is active (the configured one, or the default one that
+    /// rollback() silently installs), or two explicit merges were issued
+    fn merge_chain_possible(&self) -> bool {
+        self.cfg.policy != 0 || !self.policy_intact || self.explicit_merges_since_first_del >= 2
+    }
+
     fn tainted(&self, now: u64) -> bool {
         self.stale_dels.iter().any(|(_, o)| *o >= now) || self.stale_add_max.map_or(false, |m| m >= now)
     }
@@ -535,10 +553,21 @@ impl Exec {
         self.had_delete = true;
         if op == self.session_start && self.was_fresh {
             self.first_del = true;
+            self.explicit_merges_since_first_del = 0;
+            // what the model of merge() / end_merge predicts for the unchanged code: a source whose
+            // delete_opstamp equals the commit opstamp C is skipped by advance_deletes(target = C),
+            // every other source gets the delete applied (and end_merge publishes it); the catch-up
+            // of end_merge (`delete.opstamp < C`) never applies a delete stamped C
+            let c = self.session_start;
+            if self.last_seg_delop.values().any(|d| *d != Some(c)) {
+                self.f8_other_source = true;
+            }
             for id in self.committed.iter().filter(|i| q_matches(q, **i)) {
-                self.f8_cands.insert(*id);
-                if self.last_seg_delop.get(id).cloned().flatten() == Some(self.session_start) {
+                if self.last_seg_delop.get(id).cloned().flatten() == Some(c) {
                     self.f8_lost_cands.insert(*id);
+                    self.f8_chain_cands.insert(*id);
+                } else {
+                    self.f8_cands.insert(*id);
                 }
             }
         }
@@ -695,6 +724,7 @@ impl Exec {
                 let chosen: Vec<_> = ids.iter().enumerate().filter(|(k, _)| (mask >> (k % 16)) & 1 == 1).map(|(_, i)| *i).collect();
                 if !chosen.is_empty() {
                     self.merge_possible = true;
+                    self.explicit_merges_since_first_del += 1;
                     ctx.report.count("op:merge-started");
                     let fut = self.writer.as_mut().unwrap().merge(&chosen);
                     match fut.wait() {
@@ -1075,7 +1105,9 @@ self.storage_error("C02:searcher-unreadable", format!("after {how}: {e}"), out);
             for id in &extra {
                 if self.f10_cands.contains(id) {
                     f10.push(*id);
-                } else if lean_first && self.first_del && self.merge_possible && self.f8_lost_cands.contains(id) {
+                } else if lean_first && self.first_del && self.merge_possible && self.f8_lost_cands.contains(id)
+                    && (self.f8_other_source || self.merge_chain_possible())
+                {
                     f8l.push(*id);
                 } else if !lean_clean && self.f2_cands.contains(id) {
                     f2.push(*id);
@@ -1090,7 +1122,9 @@ self.storage_error("C02:searcher-unreadable", format!("after {how}: {e}"), out);
             for id in &missing {
                 if !lean_clean && self.f3_missing.contains(id) {
                     f3m.push(*id);
-                } else if lean_first && self.first_del && self.merge_possible && self.f8_cands.contains(id) {
+                } else if lean_first && self.first_del && self.merge_possible
+                    && (self.f8_cands.contains(id) || (self.f8_chain_cands.contains(id) && self.merge_chain_possible()))
+                {
                     f8.push(*id);
                 } else {
                     other_m.push(*id);
@@ -1363,6 +1397,54 @@ fn gen_case(rng: &mut Rng, profile: u64) -> Case {
         ops.push(HOp::DropReopen(true));
     }
     Case { config, ops }
+}
+
+/// the corner next to F8 where the unchanged code is right: the previous writer's last commit
+/// deleted a document in EVERY segment (so every segment has delete_opstamp == commit opstamp),
+/// reopen, the first operation deletes an alive document, ONE explicit merge of the committed
+/// segments, then a fresh searcher without commit (rollback / reopen) and a commit.
+/// `some_clean` leaves some segments without a delete: there the unchanged code publishes (F8).
+fn gen_reopen_corner(rng: &mut Rng, shape: u64) -> Case {
+    let nseg = 2 + rng.below(3);
+    let per = 2 + rng.below(2) as u32;
+    let mut ops = vec![];
+    let mut id = 1 + rng.below(3);
+    let mut firsts = vec![];
+    let mut alive = vec![];
+    for _ in 0..nseg {
+        firsts.push(id);
+        for k in 0..per as u64 {
+            ops.push(HOp::Add(id));
+            if k > 0 {
+                alive.push(id);
+            }
+            id += 1;
+        }
+    }
+    let some_clean = shape % 4 == 3;
+    for (k, f) in firsts.iter().enumerate() {
+        if some_clean && k % 2 == 1 {
+            alive.push(*f);
+            continue;
+        }
+        ops.push(HOp::DelTerm(Q::Id(*f)));
+    }
+    ops.push(if rng.chance(1, 2) { HOp::Commit } else { HOp::CommitPrepared(Some(rng.below(50))) });
+    ops.push(HOp::DropReopen(rng.chance(1, 2)));
+    // first operation of the re-created writer: a delete of alive documents
+    let victim = *rng.pick(&alive);
+    match shape % 3 {
+        0 => ops.push(HOp::DelTerm(Q::Id(victim))),
+        1 => ops.push(HOp::DelQuery(Q::Range(victim, victim + 1))),
+        _ => ops.push(HOp::Batch(vec![BItem::Del(Q::Id(victim)), BItem::Add(id)])),
+    }
+    ops.push(HOp::Merge(0xFFFF));
+    // a fresh searcher before any commit
+    ops.push(match rng.below(3) { 0 => HOp::Rollback, 1 => HOp::DropReopen(true), _ => HOp::WaitMergeReopen });
+    ops.push(HOp::Add(id + 1));
+    ops.push(HOp::DelTerm(Q::Id(victim)));
+    ops.push(HOp::Commit);
+    Case { config: Config { threads: 1, cut: per, policy: 0, mmap: false, sort: 0 }, ops }
 }
 
 /// real memory-budget cuts (no hook): `run()` batches of documents with many unique terms, so that
@@ -2049,6 +2131,14 @@ pub fn run(ctx: &mut Ctx) {
     // the forced schedules above give the deterministic witness)
     if ctx.thorough() {
         producer_race(ctx, 2000);
+    }
+    // re-created writer, first operation a delete, one merge of committed segments
+    for k in 0..ctx.budget(12, 200) {
+        let mut rng = ctx.rng.fork();
+        let case = gen_reopen_corner(&mut rng, k);
+        let f = run_case(ctx, &case);
+        ctx.report.count("reopen-corner:cases");
+        report_findings(ctx, &case, f);
     }
     // real memory-budget cuts in the middle of run() batches
     let memcut = ctx.budget(7, 70);
